@@ -169,5 +169,37 @@ func (s *c19conc) Final(w *World) *Violation {
 	if overlapped {
 		w.Probe("c19-traversals-overlapped-inside-the-tracker")
 	}
+	// whichever traversal of a block took effect first in its scope found nobody who had traversed it: somebody
+	// must have been told to send it (this family uses neither skip counts nor ignore lists)
+	type ck struct {
+		cid   int
+		scope string
+	}
+	present, sent := map[ck]bool{}, map[ck]bool{}
+	for r, plan := range s.plan {
+		for _, op := range plan {
+			if op.kind == "link" && op.present {
+				present[ck{op.cid, s.scope[r]}] = true
+			}
+		}
+	}
+	for _, t := range s.trav {
+		if t.sent {
+			sent[ck{t.cid, s.scope[t.req]}] = true
+		}
+	}
+	for k := range present {
+		allPresent := true
+		for r, plan := range s.plan {
+			for _, op := range plan {
+				if op.kind == "link" && op.cid == k.cid && s.scope[r] == k.scope && !op.present {
+					allPresent = false // (a traversal that found the block missing may have come first)
+				}
+			}
+		}
+		if allPresent && !sent[k] {
+			return &Violation{Property: "C19", Rule: "R1", Signature: "block-sent-to-nobody:concurrent-callers", Detail: fmt.Sprintf("block c%d was traversed (present) in scope %q but no traversal was told to send it; %s", k.cid, k.scope, s.descr)}
+		}
+	}
 	return nil
 }
